@@ -4,10 +4,16 @@
    individual atomic steps and for every interleaving: the publication order that makes
    Trailer() / grpc.Trailer targets safe to read after the completion signal, the write-once
    outcome, the sender's wake-up protocol (no lost wake-up, hence no protocol-level deadlock),
-   and the exits of every blocking point. Data races proper are searched for by the free-running
-   stress harness under the race detector (M3) on every run. *)
+   and the exits of every blocking point; and the lock discipline of the source itself, on the
+   table of every field access that translator T2 (lockscan) regenerates on each run: any two
+   accesses to one field, one of them a write, are separated by construction time, a common
+   mutex (which no reachable lock state lets two goroutines hold), a channel-close publication,
+   confinement to one goroutine, or a listed exemption; the lock order has no cycle.
+   Data races proper are searched for by the free-running stress harness under the race detector
+   (M3) on every run. *)
 From Coq Require Import List NArith Bool Arith.
-From GT Require Import CliFinish CliFinishProofs SenderAtomic SenderAtomicProofs Waits WaitsProofs.
+From GT Require Import CliFinish CliFinishProofs SenderAtomic SenderAtomicProofs Waits WaitsProofs Access AccessProofs.
+From GTgen Require Import AccessTable.
 Import ListNotations.
 
 (* read-after-signal: whenever the reader has been released, what it reads was published before,
@@ -39,3 +45,17 @@ Print Assumptions C15_no_stuck_goroutine.
 Theorem C15_close_first_refuted : exists ls s, cf_run true cf_init ls = Some s /\ read_ok s = false.
 Proof. exact close_first_refuted. Qed.
 Print Assumptions C15_close_first_refuted.
+
+(* the lock discipline of the current source (table regenerated from /repo on every run) *)
+Theorem C15_access_discipline :
+  (forall a b, In a full_table -> In b full_table ->
+     s_field a = s_field b -> (s_write a = true \/ s_write b = true) ->
+     s_ctor a = true \/ s_ctor b = true
+     \/ (common_lock a b = true /\
+         forall ls t1 t2, lreach ls -> t1 <> t2 -> stands_at ls t1 a -> stands_at ls t2 b -> False)
+     \/ published a b = true \/ published b a = true
+     \/ same_thread a b = true
+     \/ exempt exemptions a b = true)
+  /\ acyclic lock_order = true /\ reacquire_count = 0%N.
+Proof. exact access_discipline. Qed.
+Print Assumptions C15_access_discipline.
